@@ -1,6 +1,6 @@
 (* Props/C10.v — every call terminates, also when racing Close; Close is final and leak-free *)
 From Coq Require Import ZArith List Bool Lia.
-From Verif Require Import Base.Word64 Model.Store Model.Close Proof.StoreMap Proof.CloseP.
+From Verif Require Import Base.Word64 Model.Store Model.Close Model.CloseFine Gen.Consts Proof.StoreMap Proof.CloseP Proof.CloseFineP.
 Import ListNotations.
 Open Scope Z_scope.
 
@@ -46,6 +46,28 @@ Print Assumptions c10_close_is_final.
 Theorem c10_close_closes : forall s, sclosed (fst (st_step s [9])) = true /\ smap (fst (st_step s [9])) = [].
 Proof. exact close_closes. Qed.
 Print Assumptions c10_close_closes.
+
+(* Close shard by shard: for every number of shards, every number of overlapping Close calls, every pattern of
+   shard locks held by other callers and every schedule, a Close call that has returned has left every shard
+   closed and the context cancelled - which is what lets the store model treat Close as one atomic step *)
+Theorem c10_returned_close_is_final : forall n ops c,
+  let st := fold_left cf_step ops (cf_init false n) in
+  nth_error (cf_pcs st) c = Some CDone ->
+  cf_flag st = true /\ forall j, (j < n)%nat -> nth j (cf_closed st) false = true.
+Proof. exact close_returned_is_final. Qed.
+Print Assumptions c10_returned_close_is_final.
+
+(* the shape that theorem is about is the shape of Store.Close in the source of this run *)
+Theorem c10_close_source_shape : c_close_shape = (true, true, true).
+Proof. exact close_shape_as_written. Qed.
+Print Assumptions c10_close_source_shape.
+
+(* with "set the flag first, return at once when it is already set" the statement is false *)
+Theorem c10_early_return_refuted :
+  exists ops c, let st := fold_left cf_step ops (cf_init true 2) in
+    nth_error (cf_pcs st) c = Some CDone /\ nth 1%nat (cf_closed st) false = false.
+Proof. exact close_early_return_refuted. Qed.
+Print Assumptions c10_early_return_refuted.
 
 (* non-vacuity: more parked writers than the queue holds, two waiters, all background goroutines *)
 Example c10_example :
